@@ -4,6 +4,7 @@ import (
 	"fmt"
 	"math/big"
 	"math/bits"
+	"slices"
 	"strconv"
 	"strings"
 )
@@ -43,7 +44,8 @@ func bytesToBigInt(v []byte) *big.Int {
 		bv := big.NewInt(0).SetBytes(v)
 		return bv
 	}
-	// Negative integer
+	// Negative integer. Work on a copy, the input buffer must be left untouched.
+	v = slices.Clone(v)
 	bv := big.NewInt(0)
 	carry := byte(1)
 	for i := len(v) - 1; i >= 0; i-- {
